@@ -5,4 +5,4 @@ From Coq Require Import List NArith ZArith.
 From DuneV Require Import C03_Params C03_Model C03_Spec.
 Extraction Language OCaml.
 Extraction "c03_model.ml" c03_init c03_step c03_run c03s_init c03_spec_step c03_spec_run c03_defined
-  c03_at_c c03_get_c c03_lookup_size c03_add_default c03_readd_op c03_param_legacy_probe_test.
+  c03_at_c c03_get_c c03_lookup_size c03_add_default c03_readd_op c03_param_legacy_probe_test c03_dirty c03_assign.
